@@ -369,8 +369,19 @@ class Impl:
 
 
 def run_impl(lines):
+    """one output line per command; an exception raised while a command is carried out or its observation is formatted
+    (the implementation reached a state that the observer does not know) becomes the output line `impl-error:<Type>`,
+    i.e. a mismatch with the model, never a crash of the harness"""
     im = Impl()
-    return [im.step(l) for l in lines], im
+    out = []
+    for l in lines:
+        try:
+            out.append(im.step(l))
+        except (KeyboardInterrupt, SystemExit):
+            raise
+        except BaseException as e:        # noqa
+            out.append(f"impl-error:{type(e).__name__}")
+    return out, im
 
 
 if __name__ == "__main__":
